@@ -124,6 +124,28 @@ Section Elems.
     bflat (pad_left (length to) from) to xs.
 End Elems.
 
+(* ---- index-level reading of [bflat] (specification side; see InPlace_spec.v) ---- *)
+(* row-major linear position of an index *)
+Fixpoint lin (shape idx : list N) : N :=
+  match shape, idx with
+  | _ :: r, i :: ir => i * prodN r + lin r ir
+  | _, _ => 0
+  end.
+
+Fixpoint valid_idx (shape idx : list N) : bool :=
+  match shape, idx with
+  | [], [] => true
+  | n :: r, i :: ir => (i <? n) && valid_idx r ir
+  | _, _ => false
+  end.
+
+(* index of the source element of a broadcast: 0 along the broadcast dimensions *)
+Fixpoint bsrc (from idx : list N) : list N :=
+  match from, idx with
+  | f :: r, i :: ir => (if f =? 1 then 0 else i) :: bsrc r ir
+  | _, _ => []
+  end.
+
 Fixpoint map2 {A B C} (f : A -> B -> C) (l : list A) (m : list B) : list C :=
   match l, m with
   | x :: l', y :: m' => f x y :: map2 f l' m'
